@@ -658,10 +658,16 @@ private:
 
     auto target = std::make_unique<T_CopyAndVerifyRangeEl[]>(count);
 
+    // index a local copy of the pointer that was range checked: if this wrapper
+    // lives in sandbox memory, impl()[i] would fetch the pointer again for every
+    // element and the sandbox may have changed it since the check
+    auto checked = tainted<const T_CopyAndVerifyRangeEl*, T_Sbx>::internal_factory(
+      static_cast<const T_CopyAndVerifyRangeEl*>(start));
+
     for (size_t i = 0; i < count; i++) {
-      // impl()[i] is a tainted_volatile reference: get_raw_value reads the
+      // checked[i] is a tainted_volatile reference: get_raw_value reads the
       // element with the size and encoding of the sandbox's ABI
-      target[i] = impl()[i].get_raw_value();
+      target[i] = checked[i].get_raw_value();
     }
 
     return target;
